@@ -314,6 +314,10 @@ def _div(a, b, site="/"):
     """real division with a well-definedness side condition on b."""
     eng = engine()
     bs = _simp(b)
+    if not z3.is_rational_value(bs) and z3.is_app(bs) and bs.decl().kind() == z3.Z3_OP_TO_REAL:
+        k = eng.determined(bs.arg(0))
+        if k is not None:
+            bs = z3.RealVal(k)
     if z3.is_rational_value(bs):
         if bs.numerator_as_long() == 0:
             eng.note_illdefined("division by constant zero", z3.BoolVal(True))
@@ -534,6 +538,52 @@ class SymList(list):
 # ---------------------------------------------------------------------------
 # engine
 
+class FreshSolver:
+    """Solver facade that re-solves from scratch on every check().  z3's incremental core (used as
+    soon as push/pop appear) is much weaker on non-linear real arithmetic than the tactic pipeline a
+    fresh solver gets; harnesses with few paths but NRA obligations use this."""
+
+    def __init__(self, timeout_ms, seed=0, tactic=None):
+        self.frames = [[]]
+        self.timeout_ms = timeout_ms
+        self.seed = seed
+        self.tactic = tactic
+        self._model = None
+
+    def set(self, key, val):
+        if key == "timeout":
+            self.timeout_ms = val
+
+    def add(self, *cs):
+        for c in cs:
+            if isinstance(c, (list, tuple)):
+                self.frames[-1].extend(c)
+            else:
+                self.frames[-1].append(c)
+
+    def push(self):
+        self.frames.append([])
+
+    def pop(self):
+        self.frames.pop()
+
+    def reset(self):
+        self.frames = [[]]
+
+    def check(self, *assumptions):
+        s = z3.Tactic(self.tactic).solver() if self.tactic else z3.Solver()
+        s.set("timeout", self.timeout_ms)
+        for f in self.frames:
+            if f:
+                s.add(*f)
+        r = s.check(*assumptions)
+        self._model = s.model() if r == z3.sat else None
+        return r
+
+    def model(self):
+        return self._model
+
+
 class Decision:
     __slots__ = ("kind", "options", "idx", "raw")
 
@@ -588,6 +638,9 @@ class Engine:
 
     # -- solver plumbing
     def _new_solver(self):
+        if self.logic == "fresh":
+            self.solver = FreshSolver(self.solver_timeout_ms, self.seed)
+            return
         self.solver = z3.Solver() if self.logic is None else z3.SolverFor(self.logic)
         self.solver.set("timeout", self.solver_timeout_ms)
         self.solver.set("random_seed", self.seed % (2 ** 30))
